@@ -61,6 +61,7 @@ type c9Policy struct {
 	CovertBlock  []string `json:"covert_block"`
 	CovertAllow  []string `json:"covert_allow"`
 	PhantomBlock []string `json:"phantom_block"`
+	Domains      []string `json:"covert_domains"`
 }
 
 type c9Thread struct {
@@ -199,6 +200,7 @@ func c9Conf(p c9Policy, share bool, endpoint string) *RegConfig {
 		CovertBlocklistSubnets: p.CovertBlock,
 		CovertAllowlistSubnets: p.CovertAllow,
 		PhantomBlocklist:       p.PhantomBlock,
+		CovertBlocklistDomains: p.Domains,
 		EnableShareOverAPI:     share,
 		PreshareEndpoint:       endpoint,
 	}
